@@ -5,14 +5,15 @@ import re
 from harness.core import pool, tb
 from harness.gen import systems
 
-PROOF_MODULE = ["OdeVerif.Proofs.C03", "OdeVerif.Proofs.ReachSpec", "OdeVerif.Proofs.RefineGraph", "OdeVerif.Proofs.PipelineGraph", "OdeVerif.Proofs.RefineDemote"]
-GENERATED = ['PyGraph', 'PyDemote']
+PROOF_MODULE = ["OdeVerif.Proofs.C03", "OdeVerif.Proofs.ReachSpec", "OdeVerif.Proofs.RefineGraph", "OdeVerif.Proofs.PipelineGraph", "OdeVerif.Proofs.RefineDemote", "OdeVerif.Proofs.RefinePartition"]
+GENERATED = ["PyGraph", "PyDemote", "PyPartition"]
 THEOREMS = ["OdeVerif.C03.propagate_terminates", "OdeVerif.C03.verdict_total", "OdeVerif.C03.propagate_below", "OdeVerif.C03.propagate_closed",
             "OdeVerif.C03.propagate_greatest", "OdeVerif.C03.analytic_sound", "OdeVerif.C03.analytic_closed",
             "OdeVerif.C03.tractable_recognised", "OdeVerif.ReachSpec.graph_reach_iff", "OdeVerif.ReachSpec.sccSize_spec", "OdeVerif.C03.partition_exact_cover", "OdeVerif.C03.verdict_perm_invariant",
             "OdeVerif.Refine.dependencyEdges_spec", "OdeVerif.Refine.mem_dependencyEdges", "OdeVerif.Refine.propagate_refines", "OdeVerif.Refine.verdict_refines",
             "OdeVerif.PipelineSpec.analyse_verdict_some", "OdeVerif.PipelineSpec.analyse_partition", "OdeVerif.PipelineSpec.analyse_analytic_closed", "OdeVerif.PipelineSpec.analyse_analytic_linear",
-            "OdeVerif.Refine.demote_refines", "OdeVerif.Refine.demote_above", "OdeVerif.Refine.demote_eligible", "OdeVerif.Refine.findAnalytic_refines", "OdeVerif.Refine.findAnalytic_total"]
+            "OdeVerif.Refine.demote_refines", "OdeVerif.Refine.demote_above", "OdeVerif.Refine.demote_eligible", "OdeVerif.Refine.findAnalytic_refines", "OdeVerif.Refine.findAnalytic_total",
+            "OdeVerif.Refine.solverPartition_requests", "OdeVerif.Refine.solverPartition_disabled"]
 LEVEL = "proof"
 
 
